@@ -58,8 +58,9 @@ Proof.
   assert (Hi1 : i + 1 < nvars s) by (apply (inv_lvls _ (proj1 HG)); eauto).
   destruct (swap i (i + 1) (Some al) s) as [r1 s1] eqn:Esw.
   destruct (swap_adj L s al i (i + 1) r1 s1 HG Hal ltac:(by left) ltac:(lia) Hi1 Esw)
-    as [->|(al1&->&HS1&Hal1&Hp1)].
+    as [->|[(->&->&_)|(al1&->&HS1&Hal1&Hp1)]].
   { rewrite (bind_err _ _ _ _ _ Esw). intros [= <- <-]. by left. }
+  { rewrite (bind_err _ _ _ _ _ Esw). intros [= <- <-]. by apply Hstay. }
   rewrite (bind_ok _ _ _ _ _ Esw). cbn [snd]. intros [= <- <-]. right. split_and!.
   - by apply (Stp_trans L s0 s s1).
   - by rewrite (Stp_dom L _ s s1 HS1 Hp1).
@@ -94,6 +95,173 @@ Proof.
     + rewrite (bind_err _ _ _ _ _ Eout). intros [= <- <-]. by right.
 Qed.
 
+(** ** sifting is safe as well: a swap refused by the full-table pre-check
+    stops the pass between two swaps *)
+Definition SafeOutG {A} (lev : A → levels_t) (L : positive → nat) (s0 : st)
+    (r : res A) (s' : st) : Prop :=
+  r = Err EOracle ∨
+  (Stp L s0 s' ∧ dom (vars s') = dom (vars s0) ∧ ∀ a, r = Ok a → levels_ok s' (lev a)).
+
+Lemma safe_stay {A} (lev : A → levels_t) L s0 s (r : res A) :
+  Stp L s0 s → dom (vars s) = dom (vars s0) → (∀ a, r ≠ Ok a) → SafeOutG lev L s0 r s.
+Proof. intros HS Hd Hr. right. split_and!; try done. intros a E. by destruct (Hr a). Qed.
+
+Lemma shift_loop_safe L s0 (down : bool) : ∀ n i al sizes s r s',
+  Stp L s0 s → levels_ok s al → dom (vars s) = dom (vars s0) →
+  (if down then i + n < nvars s else n ≤ i ∧ i < nvars s) →
+  shift_loop n i down al sizes s = (r, s') →
+  SafeOutG snd L s0 r s'.
+Proof.
+  induction n as [|n IH]; intros i al sizes s r s' HS Hal Hd Hb.
+  - cbn [shift_loop]. intros [= <- <-]. right. split_and!; try done. by intros a [= <-].
+  - cbn [shift_loop]. set (j := if down then i + 1 else i - 1).
+    pose proof HS as (HG&Hnv&_).
+    assert (Hij : j = i + 1 ∨ i = j + 1) by (subst j; destruct down; lia).
+    destruct (swap i j (Some al) s) as [r1 s1] eqn:Esw.
+    destruct (swap_adj L s al i j r1 s1 HG Hal Hij ltac:(destruct down; lia)
+                ltac:(subst j; destruct down; lia) Esw)
+      as [->|[(->&->&_)|(al1&->&HS1&Hal1&Hp1)]].
+    { rewrite (bind_err _ _ _ _ _ Esw). intros [= <- <-]. by left. }
+    { rewrite (bind_err _ _ _ _ _ Esw). intros [= <- <-]. by apply safe_stay. }
+    rewrite (bind_ok _ _ _ _ _ Esw). cbv beta iota.
+    pose proof HS1 as (_&Hn1&_).
+    apply IH; [by apply (Stp_trans L s0 s s1)|done| |].
+    + by rewrite (Stp_dom L _ s s1 HS1 Hp1).
+    + rewrite Hn1. subst j. destruct down; lia.
+Qed.
+
+Lemma shift_safe L s0 a e al s r s' :
+  Stp L s0 s → levels_ok s al → dom (vars s) = dom (vars s0) →
+  shift a e al s = (r, s') → SafeOutG snd L s0 r s'.
+Proof.
+  intros HS Hal Hd. unfold shift. cbn [bind get]. unfold assert.
+  case_bool_decide as Ha; cbn [bind ret raise];
+    [|intros [= <- <-]; by apply safe_stay].
+  case_bool_decide as He; cbn [bind ret raise];
+    [|intros [= <- <-]; by apply safe_stay].
+  case_decide; apply shift_loop_safe; try done; lia.
+Qed.
+
+Lemma reorder_var_safe L s0 var al s r s' :
+  Stp L s0 s → levels_ok s al → dom (vars s) = dom (vars s0) →
+  reorder_var var al s = (r, s') → SafeOutG snd L s0 r s'.
+Proof.
+  intros HS Hal Hd. unfold reorder_var. cbn [bind get]. unfold ensure, assert.
+  case_bool_decide; cbn [bind ret raise]; [|intros [= <- <-]; by apply safe_stay].
+  case_bool_decide; cbn [bind ret raise]; [|intros [= <- <-]; by apply safe_stay].
+  assert (Hlv : level_of_var var s =
+            (match vars s !! var with Some l => Ok l | None => Err EValue end, s)).
+  { unfold level_of_var. cbn [bind get]. by destruct (vars s !! var). }
+  destruct (vars s !! var) as [level|];
+    [rewrite (bind_ok _ _ _ _ _ Hlv)
+    |rewrite (bind_err _ _ _ _ _ Hlv); intros [= <- <-]; by apply safe_stay].
+  destruct (if decide (nvars s - 1 <= 2 * level) then (nvars s - 1, 0) else (0, nvars s - 1))
+    as [start end_].
+  (* first shift *)
+  destruct (shift level start al s) as [r1 s1] eqn:E1.
+  destruct (shift_safe L s0 level start al s r1 s1 HS Hal Hd E1) as [->|(HS1&Hd1&Hal1)].
+  { rewrite (bind_err _ _ _ _ _ E1). intros [= <- <-]. by left. }
+  destruct r1 as [[sz1 al1]|e]; cycle 1.
+  { rewrite (bind_err _ _ _ _ _ E1). intros [= <- <-]. by apply safe_stay. }
+  rewrite (bind_ok _ _ _ _ _ E1). cbv beta iota.
+  specialize (Hal1 _ eq_refl). cbn [snd] in Hal1.
+  (* second shift *)
+  destruct (shift start end_ al1 s1) as [r2 s2] eqn:E2.
+  destruct (shift_safe L s0 start end_ al1 s1 r2 s2 HS1 Hal1 Hd1 E2) as [->|(HS2&Hd2&Hal2)].
+  { rewrite (bind_err _ _ _ _ _ E2). intros [= <- <-]. by left. }
+  destruct r2 as [[sizes al2]|e]; cycle 1.
+  { rewrite (bind_err _ _ _ _ _ E2). intros [= <- <-]. by apply safe_stay. }
+  rewrite (bind_ok _ _ _ _ _ E2). cbv beta iota.
+  specialize (Hal2 _ eq_refl). cbn [snd] in Hal2.
+  case_decide.
+  { intros [= <- <-]. right. split_and!; try done. by intros a [= <-]. }
+  destruct (argmin sizes) as [[k mk]|]; cbn [of_opt bind ret raise];
+    [|intros [= <- <-]; by apply safe_stay].
+  (* third shift *)
+  destruct (shift end_ k al2 s2) as [r3 s3] eqn:E3.
+  destruct (shift_safe L s0 end_ k al2 s2 r3 s3 HS2 Hal2 Hd2 E3) as [->|(HS3&Hd3&Hal3)].
+  { rewrite (bind_err _ _ _ _ _ E3). intros [= <- <-]. by left. }
+  destruct r3 as [[sz3 al3]|e]; cycle 1.
+  { rewrite (bind_err _ _ _ _ _ E3). intros [= <- <-]. by apply safe_stay. }
+  rewrite (bind_ok _ _ _ _ _ E3). cbv beta iota. cbn [bind get].
+  specialize (Hal3 _ eq_refl). cbn [snd] in Hal3.
+  case_bool_decide; cbn [bind ret raise]; [|intros [= <- <-]; by apply safe_stay].
+  case_bool_decide; cbn [bind ret raise]; [|intros [= <- <-]; by apply safe_stay].
+  intros [= <- <-]. right. split_and!; try done. by intros a [= <-].
+Qed.
+
+Lemma sift_body_safe L s0 al p s r s' :
+  Stp L s0 s → levels_ok s al → dom (vars s) = dom (vars s0) →
+  sift_body al p s = (r, s') → SafeOut L s0 r s'.
+Proof.
+  intros HS Hal Hd. unfold sift_body.
+  destruct (reorder_var (Nat.pred (Pos.to_nat p)) al s) as [r1 s1] eqn:E1.
+  destruct (reorder_var_safe L s0 _ al s r1 s1 HS Hal Hd E1) as [->|(HS1&Hd1&Hal1)].
+  { rewrite (bind_err _ _ _ _ _ E1). intros [= <- <-]. by left. }
+  destruct r1 as [[k al1]|e].
+  - rewrite (bind_ok _ _ _ _ _ E1). intros [= <- <-]. right. split_and!; try done.
+    intros al' [= <-]. by apply (Hal1 (k, al1)).
+  - rewrite (bind_err _ _ _ _ _ E1). intros [= <- <-]. right. split_and!; try done.
+Qed.
+
+Theorem apply_sifting_safe s L r s' :
+  Gd L s → apply_sifting s = (r, s') →
+  r = Err EOracle ∨ (Stp L s s' ∧ dom (vars s') = dom (vars s) ∧ rr s' = rr s).
+Proof.
+  intros (HI&HC&Hll) Hrun.
+  pose proof (pres_apply_sifting s r s' Hrun) as Hrr.
+  revert Hrun. unfold apply_sifting.
+  destruct (collect_garbage None s) as [rg s1] eqn:Egc.
+  pose proof (gc_nozero s L rg s1 HI HC Egc) as Hz1.
+  destruct (gc_exact s L rg s1 HI HC Egc) as (->&HI1&HC1&_&Hv1&Hl1&Hll1&Hdom1&Hsub1).
+  rewrite (bind_ok _ _ _ _ _ Egc). cbn [bind get].
+  destruct (levels_spec s1 HI1) as (al&Hlev&Hal). rewrite (bind_ok _ _ _ _ _ Hlev).
+  assert (HG1 : Gd L s1) by (split_and!; [done|done|congruence]).
+  assert (Hk1 : keepsH L s s1).
+  { intros u [Hu0 Hu].
+    destruct (gc_preserves_den None s L (Ok tt) s1 u HI HC I Egc Hu0) as (V1&V&HD).
+    { destruct Hu as [?|Hu]; [by left|right]. apply reach_root; [done|].
+      destruct HC as [_ HC2]. destruct (decide (absn u ∈ dom (succ s))) as [|Hd]; [done|].
+      rewrite (HC2 _ Hd) in Hu. lia. }
+    split_and!; try done. intros ρ. unfold denv. rewrite Hl1. apply HD. }
+  assert (HS1 : Stp L s s1).
+  { split; [done|]. split; [unfold nvars; by rewrite Hv1|]. split; [done|by intros _]. }
+  destruct (pop_order (set_map Pos.of_succ_nat (dom (vars s1))) s1) as [ro sP] eqn:Epo.
+  destruct (pop_order_spec _ s1 ro sP Epo) as (EsP&EpP&HkP&Hro).
+  destruct Hro as [->|(names&->&_&Hnames)].
+  { rewrite (bind_err _ _ _ _ _ Epo). intros [= <- <-]. by left. }
+  rewrite (bind_ok _ _ _ _ _ Epo).
+  destruct HkP as (Er&Em&Ei&Ev&El&Ell&_).
+  assert (HGP : Gd L sP).
+  { split_and!.
+    - apply (Inv_same s1); [|done]. split_and!; try done. by rewrite Er.
+    - by apply (Counts_same s1).
+    - congruence. }
+  assert (HSP : Stp L s sP).
+  { apply (Stp_trans L s s1 sP); [done|]. split; [done|]. split; [unfold nvars; by rewrite Ev|].
+    split.
+    - intros u Hu. pose proof (held_valid L s1 u HI1 HC1 Hu) as Hv.
+      split_and!; try done; [unfold valid; by rewrite EsP|].
+      intros ρ. unfold denv. rewrite El. by apply D_same.
+    - intros Hz n. rewrite EsP, Er. apply Hz. }
+  assert (HalP : levels_ok sP al).
+  { intros l Hl. unfold nvars in Hl. rewrite Ev in Hl. destruct (Hal l Hl) as (X&?&HX).
+    exists X. split; [done|]. intros n. by rewrite EsP. }
+  assert (HdP : dom (vars sP) = dom (vars s)) by (by rewrite Ev, Hv1).
+  destruct (foldM (fun al p => r <- reorder_var (Nat.pred (Pos.to_nat p)) al ;; ret (snd r))
+              al names sP) as [rf sF] eqn:Ef.
+  assert (Hout : SafeOut L s rf sF).
+  { apply (fold_safe sift_body L s (fun _ => True)) with names al sP; try done.
+    - intros al0 p s2 r2 s3 _. apply sift_body_safe.
+    - by apply Forall_forall. }
+  destruct Hout as [->|(HSF&HdF&_)].
+  { rewrite (bind_err _ _ _ _ _ Ef). intros [= <- <-]. by left. }
+  destruct rf as [alF|e].
+  - rewrite (bind_ok _ _ _ _ _ Ef). cbn [bind get]. unfold assert.
+    case_bool_decide; intros [= <- <-]; by right.
+  - rewrite (bind_err _ _ _ _ _ Ef). intros [= <- <-]. by right.
+Qed.
+
 (** ** [reorder], any argument *)
 Theorem reorder_safe o s L r s' :
   Gd L s → reorder o s = (r, s') →
@@ -103,8 +271,7 @@ Proof.
   intros HG Hrun. destruct o as [order|]; cbn [reorder] in Hrun.
   - destruct (sort_to_order_safe order s L r s' HG Hrun) as [?|((?&_&?&_)&?&?)]; [by left|right].
     done.
-  - destruct HG as (HI&HC&Hll).
-    destruct (apply_sifting_spec s L r s' HI HC Hll Hrun) as [?|(_&?&_&?&?&?&_)]; [by left|right].
+  - destruct (apply_sifting_safe s L r s' HG Hrun) as [?|((?&_&?&_)&?&?)]; [by left|right].
     done.
 Qed.
 
@@ -153,17 +320,17 @@ Qed.
 (** sifting through the public entry point *)
 Theorem reorder_pub_sift s L r s' :
   Inv s → Counts s L → reorder_pub None s = (r, s') →
-  r = Err EOracle ∨
+  r = Err EOracle ∨ r = Err ERuntime ∨
   (r = Ok tt ∧ Inv s' ∧ Counts s' L ∧ last_len s' = last_len s ∧ nozero s' ∧
    dom (vars s') = dom (vars s) ∧ keepsH L s s' ∧ rr s' = rr s ∧ len s' ≤ len s).
 Proof.
   intros HI HC Hrun. apply guarded_run in Hrun as [[Hll Hrun]|(ll&s1&Hll&Hrun&->)];
     cbn [reorder] in Hrun.
   - destruct (apply_sifting_spec s L r s' HI HC Hll Hrun)
-      as [?|(?&(?&?&?)&?&?&?&?&?)]; [by left|right]. split_and!; try done. congruence.
+      as [?|[?|(?&(?&?&?)&?&?&?&?&?)]]; [by left|by right; left|right; right]. split_and!; try done. congruence.
   - destruct (Gd_off L s HI HC) as (HI0&HC0&Hll0).
     destruct (apply_sifting_spec _ L r s1 HI0 HC0 Hll0 Hrun)
-      as [?|(?&(HI1&HC1&_)&Hz&Hr&Hd&Hk&Hle)]; [by left|right]. split_and!; try done.
+      as [?|[?|(?&(HI1&HC1&_)&Hz&Hr&Hd&Hk&Hle)]]; [by left|by right; left|right; right]. split_and!; try done.
     + apply (Inv_same s1); [by repeat split|done].
     + by apply (keepsH_ll L s None s1 (Some ll)).
 Qed.
@@ -176,16 +343,16 @@ Theorem reorder_pub_order order s L r s' :
   (∀ v l, order !! v = Some l → l < nvars s) →
   (∀ u, u ∈ roots s → held L u) →
   reorder_pub (Some order) s = (r, s') →
-  r = Err EOracle ∨
+  r = Err EOracle ∨ r = Err ERuntime ∨
   (r = Ok tt ∧ Inv s' ∧ Counts s' L ∧ last_len s' = last_len s ∧ vars s' = order ∧
    keepsH L s s' ∧ rr s' = rr s).
 Proof.
   intros HI HC Hd Hinj Hb Hroots Hrun.
   apply guarded_run in Hrun as [[Hll Hrun]|(ll&s1&Hll&Hrun&->)]; cbn [reorder] in Hrun.
   - destruct (sort_to_order_correct order s L r s' ltac:(by split_and!) Hd Hinj Hb Hroots Hrun)
-      as [?|(?&((?&?&?)&_&?&_)&?&?)]; [by left|right]. split_and!; try done. congruence.
+      as [?|[?|(?&((?&?&?)&_&?&_)&?&?)]]; [by left|by right; left|right; right]. split_and!; try done. congruence.
   - destruct (sort_to_order_correct order _ L r s1 (Gd_off L s HI HC) Hd Hinj Hb Hroots Hrun)
-      as [?|(?&((HI1&HC1&_)&_&Hk&_)&Hv&Hr)]; [by left|right]. split_and!; try done.
+      as [?|[?|(?&((HI1&HC1&_)&_&Hk&_)&Hv&Hr)]]; [by left|by right; left|right; right]. split_and!; try done.
     + apply (Inv_same s1); [by repeat split|done].
     + by apply (keepsH_ll L s None s1 (Some ll)).
 Qed.
@@ -195,7 +362,7 @@ Theorem reorder_to_pairs_pub_correct pairs s L r s' :
   NoDup (pairs.*1 ++ pairs.*2) →
   (∀ v, v ∈ pairs.*1 ++ pairs.*2 → is_Some (vars s !! v)) →
   reorder_to_pairs_pub pairs s = (r, s') →
-  r = Err EOracle ∨
+  r = Err EOracle ∨ r = Err ERuntime ∨
   (r = Ok tt ∧ Inv s' ∧ Counts s' L ∧ last_len s' = last_len s ∧
    dom (vars s') = dom (vars s) ∧ keepsH L s s' ∧ rr s' = rr s ∧
    ∀ x y, (x, y) ∈ pairs → adj s' x y).
@@ -203,9 +370,9 @@ Proof.
   intros HI HC Hnd Hdecl Hrun.
   apply guarded_run in Hrun as [[Hll Hrun]|(ll&s1&Hll&Hrun&->)].
   - destruct (reorder_to_pairs_correct pairs s L r s' ltac:(by split_and!) Hnd Hdecl Hrun)
-      as [?|(?&((?&?&?)&_&?&_)&?&?&?)]; [by left|right]. split_and!; try done. congruence.
+      as [?|[?|(?&((?&?&?)&_&?&_)&?&?&?)]]; [by left|by right; left|right; right]. split_and!; try done. congruence.
   - destruct (reorder_to_pairs_correct pairs _ L r s1 (Gd_off L s HI HC) Hnd Hdecl Hrun)
-      as [?|(?&((HI1&HC1&_)&_&Hk&_)&Hd&Hr&Hadj)]; [by left|right]. split_and!; try done.
+      as [?|[?|(?&((HI1&HC1&_)&_&Hk&_)&Hd&Hr&Hadj)]]; [by left|by right; left|right; right]. split_and!; try done.
     + apply (Inv_same s1); [by repeat split|done].
     + by apply (keepsH_ll L s None s1 (Some ll)).
 Qed.
